@@ -278,7 +278,8 @@ def fixed_value_space_rule(ctx: Ctx, rule: str, f: FuncInfo, what: str, value_na
                     if isinstance(r, ast.Constant) and r.value is None:
                         continue            # presence test
                     if all(_is_decode_call(a) for a in (l, r)):
-                        value_cmp += 1
+                        # decoded values compared with Python's == / !=: True == 1 and 1 == 1.0, so members of different types of a union are confused
+                        bad.append(text(e) + '  [decoded values compared with ==/!= instead of strictly_equal(): true and 1 of a union(xs:int, xs:boolean) are taken for equal]')
                     elif {text(l), text(r)} & {'self.fixed'} and ({text(l), text(r)} - {'self.fixed'}) <= set(value_names):
                         continue            # lexical shortcut on the raw text
                     else:
